@@ -370,7 +370,7 @@ def c07(tier: str) -> int:
     v.add_model('MC_Project (what add() finds at a path: every tree of depth <= 2)', tlc_model('MC_Project'))
     snaps = make_snapshots({'S0': [], 'S1': [['add', 'Ra1', 'xml']],
                             'S3': [['add', 'Ra1', 'xml'], ['add', 'Rx', 'xml']]})
-    names = ['Ra1', 'Rar', 'Rax', 'Rx', 'Ry', 'Ru', 'Rf10', 'Rf11'] + (['Ra2', 'Rr', 'Rab', 'Rxa', 'Raa', 'Rua'] if thorough else [])
+    names = ['Ra1', 'Rar', 'Rax', 'Rx', 'Ry', 'Ru', 'Rab', 'Rf10', 'Rf11'] + (['Ra2', 'Rr', 'Rxa', 'Raa', 'Rua'] if thorough else [])
     jobs = []
     for sname in ('S0', 'S1', 'S3'):
         for n in names:
